@@ -22,7 +22,7 @@ def nontrivial(e):
 
 def key_of(e):
     if e["ev"] == "KFold":
-        return "kfold n=%d k=%d shuffle=%s" % (e["n"], e["k"], e["shuffle"])
+        return "kfold n=%d k=%d shuffle=%s built=%s" % (e["n"], e["k"], e["shuffle"], ["n_splits,shuffle", "shuffle,n_splits", "literal"][e.get("how", 0)])
     if e["ev"] == "TTS":
         return "tts n=%d ny=%d ts=%d*2^%d shuffle=%s" % (e["n"], e["ny"], e["tsM"], e["tsE"], e["shuffle"])
     return "cv run"
@@ -62,7 +62,7 @@ def run(ctx):
         else:
             runev = [x for x in events if x.get("run") == runid and x["ev"] not in ("KFold", "TTS")]
             start = runev[0]
-            ctx.report("cv kind=%s n=%d k=%d shuffle=%s at %s" % (start["kind"], start["n"], start["k"], start["shuffle"], ev),
+            ctx.report("cv kind=%s n=%d k=%d shuffle=%s built=%s at %s" % (start["kind"], start["n"], start["k"], start["shuffle"], ["n_splits,shuffle", "shuffle,n_splits", "literal"][start.get("how", 0)], ev),
                        "%s fails at event %d of a cross-validation run" % (clause, l), runev)
     nt = set()
     for e in events:
